@@ -618,6 +618,9 @@ def run_property(ctx, pid, n_quick, n_thorough):
         i, f = fails[0]
         small = shrink_case(cases[i], pid)
         r = run_cases([small], workers=1)[0]
+        if not fails_of(r, pid):          # never store a replay that does not fail: fall back to the generated case
+            small, r = cases[i], results[i]
+        f = fails_of(r, pid)[0] if fails_of(r, pid) else f
         vlib.violation(ctx, {"kind": "oracle", "what": f["what"], "failures": (r.get(pid) or [f])[:5], "case": small,
                              "outcomes": [s["out"] for s in r["steps"]], "n_failing_cases": len({k for k, _ in fails}),
                              "how_to_replay": f"./check {pid} --replay <this file>"})
@@ -638,6 +641,8 @@ def run_property(ctx, pid, n_quick, n_thorough):
             k, f = found[0]
             small = shrink_case(extra[k], pid)
             r = run_cases([small], workers=1)[0]
+            if not fails_of(r, pid):
+                small, r = extra[k], rs[k]
             vlib.violation(ctx, {"kind": "oracle", "what": f["what"], "failures": (r.get(pid) or [f])[:5], "case": small,
                                  "also_broken": what, "how_to_replay": f"./check {pid} --replay <this file>"})
         else:
